@@ -28,8 +28,10 @@ enum KeyForm {
 /// munches the key one token tree at a time until it meets the colon, so what matters is the
 /// sequence of token trees: calls with one, two or nested parenthesised arguments, a
 /// parenthesised callee, macro calls, index and tuple-field expressions, method chains, unary
-/// operators, blocks, `if`, casts, paths.
-const SHAPES: [&str; 18] = [
+/// operators, blocks, `if`, casts, paths. `once(..)` has a side effect: it counts its calls, and
+/// every generated program checks that its key expressions were evaluated exactly once each.
+const SHAPES: [&str; 19] = [
+    "once(\"{K}\")",
     "tail(\"x{K}\")",
     "pick(\"x\", \"{K}\")",
     "tail((\"x{K}\"))",
@@ -380,13 +382,15 @@ fn write_workspace(dir: &Path, progs: &[E], ncrates: usize) -> std::io::Result<V
         )?;
         // line 1..HEADER are the header; program i (global index lo + j) is on line HEADER + 1 + j
         let mut src = String::new();
-        src.push_str("#![recursion_limit = \"16384\"]\n#![allow(unused, clippy::all)]\nuse json_syntax::{json, object::Key, Parse, Value};\nfn tail(s: &str) -> String { s[1..].to_string() }\nfn pick(_: &str, b: &str) -> String { b.to_string() }\nfn main() {\n    let KA: Key = Key::from(\"a\"); let KB: Key = Key::from(\"b\");\n    std::panic::set_hook(Box::new(|_| {})); let mut progs: Vec<(usize, std::thread::Result<Value>, &str)> = Vec::new();\n");
+        src.push_str(HEADER);
+        assert_eq!(HEADER.matches('\n').count(), HEADER_LINES);
         for (j, p) in progs[lo..hi].iter().enumerate() {
             let mut r = String::new();
             p.rust(&mut r);
             let mut t = String::new();
             p.json(&mut t);
-            writeln!(src, "    progs.push(({}, std::panic::catch_unwind(|| json!({})), {:?}));", lo + j, r, t).unwrap();
+            let n_once = r.matches("once(").count();
+            writeln!(src, "    progs.push(({}, std::panic::catch_unwind(|| {{ let t0 = ticks(); let v = json!({}); let n = ticks() - t0; if n != {n_once} {{ panic!(\"the {n_once} side-effecting key expression(s) of this program were evaluated {{}} time(s) in all\", n) }} v }}), {:?}));", lo + j, r, t).unwrap();
         }
         src.push_str("    for (i, v, text) in progs {\n        let v = match v { Ok(v) => v, Err(p) => { let m = p.downcast_ref::<String>().cloned().or_else(|| p.downcast_ref::<&str>().map(|s| s.to_string())).unwrap_or_default(); println!(\"PANIC {i} {}\", m.replace('\\n', \" \")); continue; } };\n        match Value::parse_str(text) {\n            Ok((w, _)) => { if v == w { println!(\"OK {i}\"); } else { println!(\"BAD {i} macro built {} but the text parses to {}\", v, w); } }\n            Err(e) => println!(\"TEXT {i} {e}\"),\n        }\n    }\n}\n");
         std::fs::write(cdir.join("src/main.rs"), src)?;
@@ -396,7 +400,10 @@ fn write_workspace(dir: &Path, progs: &[E], ncrates: usize) -> std::io::Result<V
     Ok(ranges)
 }
 
-const HEADER_LINES: usize = 6;
+/// The first lines of every generated crate (compile errors are mapped back to programs through
+/// their line number: program j of a crate is on line HEADER_LINES + 1 + j).
+const HEADER: &str = "#![recursion_limit = \"16384\"]\n#![allow(unused, clippy::all)]\nuse json_syntax::{json, object::Key, Parse, Value};\nfn tail(s: &str) -> String { s[1..].to_string() }\nfn pick(_: &str, b: &str) -> String { b.to_string() }\nthread_local! { static TICKS: std::cell::Cell<usize> = std::cell::Cell::new(0); }\nfn ticks() -> usize { TICKS.with(|t| t.get()) }\nfn once(k: &str) -> String { TICKS.with(|t| t.set(t.get() + 1)); k.to_string() }\nfn main() {\n    let KA: Key = Key::from(\"a\"); let KB: Key = Key::from(\"b\");\n    std::panic::set_hook(Box::new(|_| {})); let mut progs: Vec<(usize, std::thread::Result<Value>, &str)> = Vec::new();\n";
+const HEADER_LINES: usize = 11;
 
 fn repo() -> String {
     std::env::var("VERIF_REPO").unwrap_or_else(|_| "/repo".into())
@@ -555,7 +562,7 @@ fn main() {
         std::fs::write(dir.join("m00/Cargo.toml"), format!("[package]\nname = \"m00\"\nversion = \"0.1.0\"\nedition = \"2021\"\n\n[dependencies]\njson-syntax = {{ path = \"{}\" }}\n", repo())).unwrap();
         std::fs::write(
             dir.join("m00/src/main.rs"),
-            format!("#![recursion_limit = \"16384\"]\n#![allow(unused)]\nuse json_syntax::{{json, object::Key, Parse, Value}};\nfn tail(s: &str) -> String {{ s[1..].to_string() }}\nfn pick(_: &str, b: &str) -> String {{ b.to_string() }}\nfn main() {{\n    let KA: Key = Key::from(\"a\"); let KB: Key = Key::from(\"b\");\n    let v = {rust};\n    let w = Value::parse_str({text:?}).unwrap().0;\n    if v != w {{ println!(\"macro built {{}} but the text parses to {{}}\", v, w); std::process::exit(1); }}\n}}\n"),
+            format!("#![recursion_limit = \"16384\"]\n#![allow(unused)]\nuse json_syntax::{{json, object::Key, Parse, Value}};\nfn tail(s: &str) -> String {{ s[1..].to_string() }}\nfn pick(_: &str, b: &str) -> String {{ b.to_string() }}\nfn once(k: &str) -> String {{ k.to_string() }}\nfn main() {{\n    let KA: Key = Key::from(\"a\"); let KB: Key = Key::from(\"b\");\n    let v = {rust};\n    let w = Value::parse_str({text:?}).unwrap().0;\n    if v != w {{ println!(\"macro built {{}} but the text parses to {{}}\", v, w); std::process::exit(1); }}\n}}\n"),
         )
         .unwrap();
         let _ = std::fs::copy(format!("{}/Cargo.lock", repo()), dir.join("Cargo.lock"));
